@@ -220,6 +220,10 @@ C24_NoOpenOfRuledOutFile(o) ==
 C24_NoRowReadOfRuledOutBlock(o) ==
   \A b \in 1..NB(o) : Blk(o, b).rowread =>
       (b \in SUpper(o) /\ (NoConditions(o) \/ Unreadable(o, b) \/ FiltersPass(o, Blk(o, b).ba)))
+\* the same when the query's first OpenFile failed: however the failure is handled, it opens no way around the filters
+C24_NoRowReadOfRuledOutBlockAfterOpenFault(o) ==
+  \A b \in 1..NB(o) : Blk(o, b).rowread_f =>
+      (b \in SUpper(o) /\ (NoConditions(o) \/ Unreadable(o, b) \/ FiltersPass(o, Blk(o, b).ba)))
 C24_NoRegionReadWithoutConditions(o) == NoConditions(o) => \A f \in 1..Len(o.files) : ~o.files[f].regionread
 C24_ReadsInsideDeclaredExtents(o) == \A f \in 1..Len(o.files) : o.files[f].oob = 0
 
@@ -250,6 +254,7 @@ Props(o) ==
     C23_ProcessedWhole |-> C23_ProcessedWhole(o), C23_Totals |-> C23_Totals(o), C23_RowsMatched |-> C23_RowsMatched(o),
     C24_NoOpenOfRuledOutFile |-> C24_NoOpenOfRuledOutFile(o), C24_NoRowReadOfRuledOutBlock |-> C24_NoRowReadOfRuledOutBlock(o),
     C24_NoRegionReadWithoutConditions |-> C24_NoRegionReadWithoutConditions(o),
+    C24_NoRowReadOfRuledOutBlockAfterOpenFault |-> C24_NoRowReadOfRuledOutBlockAfterOpenFault(o),
     C24_ReadsInsideDeclaredExtents |-> C24_ReadsInsideDeclaredExtents(o),
     C21_HandlesClosed |-> C21_HandlesClosed(o), C27_Silent |-> C27_Silent(o) ]
 
